@@ -14,8 +14,8 @@ from .. import mir, finite
 from ..mir import short, last, strip, walk, norm, is_call
 from . import common, c04, c09, c10
 
-LEVEL = "other"
-LEVEL_THOROUGH = "other"
+LEVEL = "translation_validation"
+LEVEL_THOROUGH = "translation_validation"
 
 S1 = ("param", 1)
 
@@ -441,6 +441,72 @@ def check_gen(cx, chk):
     chk.floor("C01.gen", "iteration sites over parts/choices", n, 8)
 
 
+def check_gen_literals(cx, chk):
+    """Literal / range constants reach the emitted code unchanged (or ASCII-lower-cased in the insensitive arms)."""
+    from . import templates
+    cg = cx.codegen
+    n = 0
+    for p, f in sorted(cg.fns.items()):
+        if "mir" not in f or last(p) != "generate_inline_body":
+            continue
+        q = mir.qself(p)
+        if not q or last(q[0]) not in ("StringLiteral", "CharacterRange"):
+            continue
+        b = cx.body(cg, p)
+        evs = templates.events(cx, cg, b)
+        holes = [ev for ev in evs if ev["kind"] == "hole"]
+        if last(q[0]) == "StringLiteral":
+            for ev in holes:
+                e = ev["expr"]
+                if is_call(e, "generate_skip_ws") or e[0] == "local":
+                    continue
+                n += 1
+                # allowed shapes over X = decoded literal (String::try_from(self)?)
+                calls = [last(s_[1]) for s_ in walk(e) if s_[0] == "call"]
+                allowed = {"unwrap", "next", "chars", "deref", "to_ascii_lowercase", "branch", "try_from", "as_str", "as_ref"}
+                extra = [c for c in calls if c not in allowed]
+                src = [s_ for s_ in walk(e) if is_call(s_, "try_from") and s_[2] and s_[2][0] == ("param", 1)]
+                if extra or not src:
+                    chk.violation("C01.gen", "StringLiteral literal passes through %s" % (extra[0] if extra else "?"),
+                                  "the literal emitted for a string/character literal is not the decoded literal itself (or its ASCII lower-case): it passes "
+                                  "through %s - %s" % (extra, mir.show(e)[:200]), cx.site(b, ev["bb"]))
+                else:
+                    chk.ok("C01.gen", "StringLiteral hole %s" % mir.show(e)[:60], {"emitted": mir.show(e)[:160]})
+        else:
+            # quote!(#from, #to): the stream passed to the skip helper
+            for i, t in b.calls():
+                if t["func"].get("indirect") or last(t["func"]["path"]) != "generate_skip_ws":
+                    continue
+                from . import templates as T
+                stream = T.ref_target(b, t["args"][2]) if t["args"][2].get("k") in ("move", "copy") else None
+                sl = norm(b.expr_op(t["args"][2]))
+                toks = None
+                if sl[0] == "local":
+                    toks = T.stream_tokens(b, evs, sl[1])
+                else:
+                    # moved single-def stream: find the stream local by following the move
+                    a = t["args"][2]
+                    if a.get("k") in ("move", "copy") and not a["place"]["p"]:
+                        d = b.defs.get(a["place"]["l"], [])
+                        if len(d) == 1 and d[0][2] == "rv" and d[0][3]["k"] == "use" and "place" in d[0][3]["op"]:
+                            toks = T.stream_tokens(b, evs, d[0][3]["op"]["place"]["l"])
+                        else:
+                            toks = T.stream_tokens(b, evs, a["place"]["l"])
+                n += 1
+                m = T.match_tokens(toks or [], [("hole", "from"), ",", ("hole", "to")])
+
+                def side(e, fld):
+                    # (Try::branch(TryInto::try_into(&self.<fld>)) as Continue).0
+                    return any(is_call(s_, "try_into", "try_from") and any(x == ("field", ("param", 1), fld) for x in walk(s_)) for s_ in walk(e)) \
+                        and not any(s_[0] == "call" and last(s_[1]) not in ("try_into", "try_from", "branch", "deref") for s_ in walk(e))
+                if m and side(m["from"], "from") and side(m["to"], "to"):
+                    chk.ok("C01.gen", "CharacterRange bounds", {"emitted": "#from, #to = decoded self.from, self.to"})
+                else:
+                    chk.violation("C01.gen", "CharacterRange bounds", "the range bounds emitted are not (decoded self.from, decoded self.to) in that order: %s"
+                                  % (T.show_tokens(toks or [])[:200]), cx.site(b, i))
+    chk.floor("C01.gen", "literal emission sites", n, 5)
+
+
 def run(cx, chk):
     chk.explanation = (
         "Tier 1: (prim) each terminal matcher's extracted decision tree is evaluated over all scenarios of its abstract inputs "
@@ -456,9 +522,10 @@ def run(cx, chk):
         check_prim(cx, chk, cx.runtime_nodefault, "runtime(no-default-features)")
     check_ax(cx, chk)
     check_gen(cx, chk)
+    check_gen_literals(cx, chk)
     try:
         from . import lift_rules
     except ImportError:
         lift_rules = None
     if lift_rules is not None:
-        lift_rules.check_tv(cx, chk, "C01.tv")
+        lift_rules.check_tv(cx, chk, "C01.tv", floor=1157)
